@@ -42,6 +42,21 @@ theorem c19_subset {R : Type} (env : Env R) (s : State R) (qs : List Query) (sch
   intro t ht hd
   exact answer_of_good_sub (h.2 t ht) hd
 
+/-- Never lie, spelled out: every rule in the answer of a finished query -- under any schedule and any
+    faults -- matches the request and is a genuine rule: held in memory by the engine, or what the
+    unmodified lists hold at one of the query's candidate indices (never a zero or stale rule). -/
+theorem c19_truthful {R : Type} (env : Env R) (s : State R) (qs : List Query) (sched : List Ev)
+    (hc : CacheInv env s) :
+    ∀ t ∈ (Config.run env ⟨s, qs.map Thread.init⟩ sched).threads, t.pc = .done → ∀ r ∈ t.answer env,
+      env.mtch r (env.reqOf t.q) = true ∧
+        (r ∈ env.resident ∨ ∃ idx ∈ env.cands (env.reqOf t.q), env.truth idx = some r) := by
+  intro t ht hd r hr
+  have hm := (c19_subset env s qs sched hc t ht hd).subset hr
+  simp only [pureAnswer, pureStorage, List.mem_append, List.mem_filter, List.mem_filterMap] at hm
+  rcases hm with ⟨⟨idx, hi, htr⟩, hm⟩ | ⟨hres, hm⟩
+  · exact ⟨hm, Or.inr ⟨idx, hi, htr⟩⟩
+  · exact ⟨hm, Or.inl hres⟩
+
 /-- Never lie, sequential form: for every history with `close` events at any points (fault before
     query k for any k, several faults, any lists), answer i is a sub-sequence of `pureAnswer` of query i. -/
 theorem c19_subset_history {R : Type} (env : Env R) (h : List HEv) :
